@@ -44,10 +44,18 @@ func (n Name) Pack() []byte {
 	return append(b, 0)
 }
 
+// Lower is DNS (ASCII-only) lower-casing, done here byte by byte - deliberately not
+// bytes.ToLower, which is Unicode-aware and rewrites bytes above 0x7f.
 func (n Name) Lower() Name {
 	r := make(Name, len(n))
 	for i, l := range n {
-		r[i] = bytes.ToLower(l)
+		b := append([]byte{}, l...)
+		for j, c := range b {
+			if c >= 'A' && c <= 'Z' {
+				b[j] = c + 32
+			}
+		}
+		r[i] = b
 	}
 	return r
 }
@@ -128,6 +136,7 @@ type Gen struct {
 	Locs   [][]byte
 	Types  map[int]bool
 	Labels []string
+	HiByte bool // owner labels with bytes above 0x7f
 }
 
 func (g *Gen) add(kind, text string, recs ...Rec) {
